@@ -678,6 +678,13 @@ func passedToServeJSON(f *ssa.Function) bool {
 		if cal.Origin() != nil {
 			o = cal.Origin()
 		}
+		// (a handler constructor: its result serves every request through
+		// serveJSON with the function it was given)
+		if _, idx, isHF := handlerFactory(cal); isHF && idx < len(call.Call.Args) {
+			if mc, ok := eng.Origin(call.Call.Args[idx]).(*ssa.MakeClosure); ok && mc.Fn == f {
+				found = true
+			}
+		}
 		if !eng.FuncIs(o, "server", "serveJSON") {
 			return
 		}
@@ -936,4 +943,69 @@ func isRequestAddr(getIdentity *ssa.Function, v ssa.Value) bool {
 		}
 	}
 	return len(sites) > 0
+}
+
+// handlerFactory: h does nothing but return a function literal (w, r) whose
+// body is a single serveJSON call serving its own w and r with h's
+// function-typed parameter #idx as the handler function.  A literal handed
+// to h at #idx is handed to serveJSON for every request the result serves.
+func handlerFactory(h *ssa.Function) (lit *ssa.Function, idx int, ok bool) {
+	if h == nil || h.Blocks == nil || len(h.AnonFuncs) != 1 {
+		return nil, 0, false
+	}
+	lit = h.AnonFuncs[0]
+	bad := false
+	eng.Instrs(h, func(in ssa.Instruction) {
+		switch x := in.(type) {
+		case *ssa.Return:
+			v := eng.Origin(x.Results[0])
+			if ct, isCT := v.(*ssa.ChangeType); isCT {
+				v = eng.Origin(ct.X)
+			}
+			if mc, isMC := v.(*ssa.MakeClosure); !isMC || mc.Fn != ssa.Value(lit) || len(x.Results) != 1 {
+				bad = true
+			}
+		case ssa.CallInstruction:
+			bad = true
+		}
+	})
+	if bad || len(lit.Params) != 2 {
+		return nil, 0, false
+	}
+	var sjc ssa.CallInstruction
+	n := 0
+	eng.Instrs(lit, func(in ssa.Instruction) {
+		if ci, isC := in.(ssa.CallInstruction); isC {
+			n++
+			sjc = ci
+		}
+	})
+	if n != 1 {
+		return nil, 0, false
+	}
+	if _, isCall := sjc.(*ssa.Call); !isCall {
+		return nil, 0, false
+	}
+	cal := eng.Callee(sjc.Common())
+	if cal == nil {
+		return nil, 0, false
+	}
+	o := cal
+	if cal.Origin() != nil {
+		o = cal.Origin()
+	}
+	a := sjc.Common().Args
+	if !eng.FuncIs(o, "server", "serveJSON") || len(a) != 4 || eng.Origin(a[1]) != ssa.Value(lit.Params[0]) || eng.Origin(a[2]) != ssa.Value(lit.Params[1]) {
+		return nil, 0, false
+	}
+	prm, isP := eng.Origin(a[3]).(*ssa.Parameter)
+	if !isP || prm.Parent() != h {
+		return nil, 0, false
+	}
+	for i, q := range h.Params {
+		if q == prm {
+			return lit, i, true
+		}
+	}
+	return nil, 0, false
 }
